@@ -5,6 +5,7 @@ import (
 	"go/ast"
 	"go/token"
 	"go/types"
+	"golang.org/x/tools/go/packages"
 	"sort"
 	"strings"
 
@@ -17,7 +18,7 @@ func init() {
 		Doc: "shared-state inventory: every package-level variable of the module is enumerated with every store, address-taking and mutation through a loaded reference; " +
 			"stores exist only in the package initialiser or in package internal/monitor, where each is dominated by the true edge of `m != nil` (or of `param != nil` for the value stored into m); " +
 			"no address of a package-level variable escapes; no initialiser places a non-nil reference (pointer, map, slice, func, chan) into a package-level variable",
-		Floor: 6,
+		Floor: 4,
 		Ctl:   []string{"internal__phase4__glob1.go.txt"},
 		Run:   runGlob1,
 	})
@@ -229,33 +230,7 @@ func runGlob1(m *Model, r *RuleResult) {
 			} else {
 				init = v.spec.Values[0]
 			}
-			p := m.ByPath[v.pkg]
-			ast.Inspect(init, func(n ast.Node) bool {
-				switch x := n.(type) {
-				case *ast.UnaryExpr:
-					if x.Op == token.AND {
-						problems = append(problems, "initialiser takes an address (&) at "+m.Pos(x.Pos()))
-					}
-				case *ast.FuncLit:
-					problems = append(problems, "initialiser holds a function literal at "+m.Pos(x.Pos()))
-					return false
-				case *ast.CompositeLit:
-					if t := p.TypesInfo.TypeOf(x); t != nil {
-						switch t.Underlying().(type) {
-						case *types.Map, *types.Slice, *types.Pointer:
-							problems = append(problems, "initialiser allocates a shared "+t.String()+" at "+m.Pos(x.Pos()))
-						}
-					}
-				case *ast.CallExpr:
-					if tv, ok := p.TypesInfo.Types[x.Fun]; ok && tv.IsType() {
-						return true // conversion
-					}
-					if t := p.TypesInfo.TypeOf(x); t != nil && typeHasRef(t, 0) {
-						problems = append(problems, "initialiser calls "+types.ExprString(x.Fun)+" returning a reference-bearing value at "+m.Pos(x.Pos()))
-					}
-				}
-				return true
-			})
+			problems = append(problems, m.initialiserProblems(m.ByPath[v.pkg], init, 0)...)
 		}
 		var visitAddr func(addr ssa.Value, fn *ssa.Function, depth int)
 		checkStore := func(st ssa.Instruction, fn *ssa.Function) {
@@ -422,6 +397,10 @@ func runMon1(m *Model, r *RuleResult) {
 				constructors[funcKey(f)] = true
 			}
 		}
+		if monitorInstallWrappers(m, m.anchorMonitorSet(), m.anchorMonitorReset())[f] {
+			// returns the Reset function: no information about the monitor reaches the pipeline (ORD-1 checks its use)
+			isCtor = true
+		}
 		if res.Len() > 0 && !isCtor {
 			// a boolean query ("is anybody listening?") is harmless when all it controls is logging
 			okQuery := false
@@ -548,7 +527,7 @@ func runMon1(m *Model, r *RuleResult) {
 			if refs := loaded.Referrers(); refs != nil {
 				for _, ref := range *refs {
 					if ci, ok := ref.(ssa.CallInstruction); ok {
-						if cal := ci.Common().StaticCallee(); cal != nil && pkgPathOf(cal) == monPkg && cal == m.anchorMonitorSet() {
+						if cal := ci.Common().StaticCallee(); cal != nil && pkgPathOf(cal) == monPkg && (cal == m.anchorMonitorSet() || monitorInstallWrappers(m, m.anchorMonitorSet(), m.anchorMonitorReset())[cal]) {
 							continue
 						}
 					}
@@ -572,6 +551,45 @@ func runMon1(m *Model, r *RuleResult) {
 
 // ---------- ORD-1 ----------
 
+// monitorInstallWrappers: top-level functions of package monitor (other than Set) that call Set exactly once, unconditionally,
+// and return the Reset function itself on every path.
+func monitorInstallWrappers(m *Model, set, reset *ssa.Function) map[*ssa.Function]bool {
+	out := map[*ssa.Function]bool{}
+	if set == nil || reset == nil {
+		return out
+	}
+	for _, f := range m.Src {
+		if pkgPathOf(f) != pkgPathOf(set) || f == set || f.Parent() != nil || m.FuncIsPosctl(f) || f.Signature.Results().Len() != 1 {
+			continue
+		}
+		sites := staticCalls(f, func(c *ssa.Function) bool { return c == set })
+		if len(sites) != 1 || sites[0].Block() != f.Blocks[0] {
+			continue
+		}
+		if _, isCall := sites[0].(*ssa.Call); !isCall {
+			continue
+		}
+		ok := true
+		n := 0
+		eachInstr(f, func(in ssa.Instruction) {
+			if ret, isRet := in.(*ssa.Return); isRet {
+				n++
+				v := ret.Results[0]
+				if ct, isCT := v.(*ssa.ChangeType); isCT {
+					v = ct.X
+				}
+				if fn, isFn := v.(*ssa.Function); !isFn || fn != reset {
+					ok = false
+				}
+			}
+		})
+		if ok && n > 0 {
+			out[f] = true
+		}
+	}
+	return out
+}
+
 func runOrd1(m *Model, r *RuleResult) {
 	monPkg := modPath + "/internal/monitor"
 	set := m.anchorMonitorSet()
@@ -581,8 +599,48 @@ func runOrd1(m *Model, r *RuleResult) {
 		r.undecided("anchors", "-", "monitor.Set / monitor.Reset / autog.Layout", "anchor function not found")
 		return
 	}
+	// installer wrappers: functions of package monitor that call Set and return the Reset function on every path
+	wrappers := monitorInstallWrappers(m, set, reset)
+	for _, f := range m.Funcs {
+		eachInstr(f, func(in ssa.Instruction) {
+			ci, ok := in.(ssa.CallInstruction)
+			if !ok || !wrappers[ci.Common().StaticCallee()] {
+				return
+			}
+			ctl := m.FuncIsPosctl(f)
+			key := "set-site:" + funcKey(f)
+			// the returned reset function is deferred straight away: the next call-like instruction is `defer <result>()`
+			var next ssa.Instruction
+			for _, x := range in.Block().Instrs[instrIndex(in)+1:] {
+				if _, ok := x.(ssa.CallInstruction); ok {
+					next = x
+					break
+				}
+			}
+			d, isDefer := next.(*ssa.Defer)
+			_, isPlainCall := in.(*ssa.Call)
+			switch {
+			case !isPlainCall:
+				r.add(Obligation{Key: key, Pos: m.Pos(in.Pos()), Desc: "monitor installer call", Verdict: "violation", Detail: "the installer is deferred or started as a goroutine", Control: ctl})
+			case !isDefer || d.Call.Value != ci.Value():
+				what := "no call follows in the block"
+				if next != nil {
+					what = "next call is " + next.String()
+				}
+				r.add(Obligation{Key: key, Pos: m.Pos(in.Pos()), Desc: "the function returned by the monitor installer must be deferred immediately", Verdict: "violation",
+					Detail: what + ": a panic (or any exit) between installing the monitor and deferring its removal leaves the monitor installed for later calls", Control: ctl})
+			case f != layout:
+				r.add(Obligation{Key: key, Pos: m.Pos(in.Pos()), Desc: "monitor installer call site outside Layout", Verdict: "violation", Detail: "only Layout installs the monitor", Control: ctl})
+			default:
+				r.add(Obligation{Key: key, Pos: m.Pos(in.Pos()), Desc: "the monitor is installed through " + ci.Common().StaticCallee().Name() + ", whose result (Reset) is deferred immediately", Verdict: "holds", Control: ctl})
+			}
+		})
+	}
 	// call sites of Set across the module
 	for _, f := range m.Funcs {
+		if wrappers[f] {
+			continue // the wrapper's own call of Set: judged at the wrapper's call sites
+		}
 		eachInstr(f, func(in ssa.Instruction) {
 			ci, ok := in.(ssa.CallInstruction)
 			if !ok || ci.Common().StaticCallee() != set {
@@ -881,4 +939,53 @@ func logOnlyRegion(m *Model, ci ssa.CallInstruction, monPkg string) string {
 		}
 	}
 	return ""
+}
+
+// initialiserProblems: does the initialiser expression of a package-level variable create a non-nil reference (shared
+// mutable storage)? Calls of module functions whose body is a single return statement are followed into the returned
+// expressions (a constructor of default values).
+func (m *Model) initialiserProblems(p *packages.Package, init ast.Expr, depth int) []string {
+	var problems []string
+	if p == nil {
+		return []string{"initialiser in an unknown package"}
+	}
+	ast.Inspect(init, func(n ast.Node) bool {
+		switch x := n.(type) {
+		case *ast.UnaryExpr:
+			if x.Op == token.AND {
+				problems = append(problems, "initialiser takes an address (&) at "+m.Pos(x.Pos()))
+			}
+		case *ast.FuncLit:
+			problems = append(problems, "initialiser holds a function literal at "+m.Pos(x.Pos()))
+			return false
+		case *ast.CompositeLit:
+			if t := p.TypesInfo.TypeOf(x); t != nil {
+				switch t.Underlying().(type) {
+				case *types.Map, *types.Slice, *types.Pointer:
+					problems = append(problems, "initialiser allocates a shared "+t.String()+" at "+m.Pos(x.Pos()))
+				}
+			}
+		case *ast.CallExpr:
+			if tv, ok := p.TypesInfo.Types[x.Fun]; ok && tv.IsType() {
+				return true // conversion
+			}
+			if t := p.TypesInfo.TypeOf(x); t != nil && typeHasRef(t, 0) {
+				// a constructor of this module that only returns an expression of the same harmless kind
+				if fn, ok := calleeObj(p.TypesInfo, x).(*types.Func); ok && depth < 3 {
+					if fd := m.Decl[fn]; fd != nil && fd.Body != nil && len(fd.Body.List) == 1 {
+						if ret, ok := fd.Body.List[0].(*ast.ReturnStmt); ok && len(ret.Results) > 0 {
+							for _, re := range ret.Results {
+								problems = append(problems, m.initialiserProblems(m.DeclPkg[fn], re, depth+1)...)
+							}
+							// the arguments are still inspected by the walk
+							return true
+						}
+					}
+				}
+				problems = append(problems, "initialiser calls "+types.ExprString(x.Fun)+" returning a reference-bearing value at "+m.Pos(x.Pos()))
+			}
+		}
+		return true
+	})
+	return problems
 }
